@@ -356,7 +356,7 @@ def main():
     # ---------------- main exploration
     lock = threading.Lock()
     state = {h: {"next": 0, "runs": 0, "time": 0.0, "chunk": 8} for h in harnesses}
-    results = collections.defaultdict(list)
+    results = Agg()
     violations, infra = [], []
     t_end = time.time() + budget
     stop = threading.Event()
@@ -396,7 +396,7 @@ def main():
                 per = dt / max(1, len(res) + (1 if viol else 0))
                 # aim at ~3 s per worker process
                 s["chunk"] = int(max(2, min(2000, 2.0 / max(per, 1e-4))))
-                results[h].extend(res)
+                results.add(h, res)
                 if err:
                     infra.append(err)
                     stop.set()
@@ -521,50 +521,81 @@ def main():
     for r in reported:
         print("violation class=%s harness=%s run=%d: %s" % (r["cls"], r["harness"], r["run"], r["msg"][:300]))
         print("VIOLATION property=%s replay=%s" % (pid, r["replay"]))
-    tot = sum(len(v) for v in results.values())
+    tot = len(results)
     log("%s %s: %d clean runs, %d violation(s), %d known finding(s), %.1fs" % (pid, tier, tot, len(reported), len(known_printed), wall))
     return 1 if reported else 0
 
 
-def write_evidence(pid, tier, seed, results, reported, known_printed, det, wall, harnesses, infra=None):
-    tot = sum(len(v) for v in results.values())
-    faults, probes, faults_clean = collections.Counter(), collections.Counter(), collections.Counter()
-    steps = sim_ns = 0
-    distinct, ilv = set(), set()
-    cfg_hist = collections.defaultdict(collections.Counter)
-    clean_runs = faulted_runs = 0
-    samples = []
-    per_h = {}
-    extra_sum = collections.Counter()
-    for h, rs in results.items():
-        per_h[h] = len(rs)
+class Agg:
+    """Folds the result lines of the runs as they arrive (a thorough C05 batch is 8 million runs: keeping them all costs tens
+    of GB). Distinct hashes are kept as 64-bit integers and capped."""
+    CAP = 4000000
+
+    def __init__(self):
+        self.n = collections.Counter()
+        self.faults, self.probes, self.faults_clean = collections.Counter(), collections.Counter(), collections.Counter()
+        self.steps = self.sim_ns = 0
+        self.distinct, self.ilv = set(), set()
+        self.capped = False
+        self.cfg_hist = collections.defaultdict(collections.Counter)
+        self.clean_runs = self.faulted_runs = 0
+        self.samples = collections.defaultdict(list)
+        self.extra_sum = collections.Counter()
+
+    def __len__(self):
+        return sum(self.n.values())
+
+    def values(self):           # compatibility with "sum(len(v) for v in results.values())"
+        return [range(c) for c in self.n.values()]
+
+    def add(self, h, rs):
         for j in rs:
             r = j["result"]
-            steps += r["steps"]
-            sim_ns += r["sim_ns"]
+            self.n[h] += 1
+            self.steps += r["steps"]
+            self.sim_ns += r["sim_ns"]
             is_clean = r["cfg"].get("clean", 1) == 0
-            clean_runs += 1 if is_clean else 0
-            faulted_runs += 0 if is_clean else 1
+            self.clean_runs += 1 if is_clean else 0
+            self.faulted_runs += 0 if is_clean else 1
             for k, v in r["faults"].items():
-                (faults_clean if is_clean else faults)[k] += v
+                (self.faults_clean if is_clean else self.faults)[k] += v
             for k, v in r["probes"].items():
-                probes[k] += v
-            ilv.add((h, r["sched_hash"]))
-            if r["nonzero"] >= 1 and (r["tasks"] >= 2 or r["faults"] or r["nonzero"] >= 1):
-                distinct.add((h, r["hash"]))
+                self.probes[k] += v
+            if len(self.ilv) < self.CAP:
+                self.ilv.add(hash((h, r["sched_hash"])))
+            else:
+                self.capped = True
+            if r["nonzero"] >= 1:
+                if len(self.distinct) < self.CAP:
+                    self.distinct.add(hash((h, r["hash"])))
+                else:
+                    self.capped = True
             for k, v in r["cfg"].items():
                 if len(k) <= 14 and not re.match(r"t\d+o\d+", k):
-                    cfg_hist[k][v] += 1
+                    self.cfg_hist[k][v] += 1
             ex = j.get("extra")
             if isinstance(ex, dict):
                 for k, v in ex.items():
                     if isinstance(v, (int, float)):
-                        extra_sum[k] += v
-        for j in rs[:2]:
-            samples.append({"harness": h, "run": j["run"], "seed": j["seed"], "cfg": j["result"]["cfg"], "steps": j["result"]["steps"],
-                            "decisions": j["result"]["decisions"], "nonzero_decisions": j["result"]["nonzero"],
-                            "faults_fired": j["result"]["faults"], "probes": j["result"]["probes"], "event_log_hash": j["result"]["hash"],
-                            "verdict": "OK", "extra": j.get("extra")})
+                        self.extra_sum[k] += v
+            if len(self.samples[h]) < 2:
+                self.samples[h].append({"harness": h, "run": j["run"], "seed": j["seed"], "cfg": r["cfg"], "steps": r["steps"],
+                                        "decisions": r["decisions"], "nonzero_decisions": r["nonzero"], "faults_fired": r["faults"],
+                                        "probes": r["probes"], "event_log_hash": r["hash"], "verdict": "OK", "extra": j.get("extra")})
+
+
+def write_evidence(pid, tier, seed, results, reported, known_printed, det, wall, harnesses, infra=None):
+    tot = len(results)
+    faults, probes, faults_clean = results.faults, results.probes, results.faults_clean
+    steps, sim_ns = results.steps, results.sim_ns
+    distinct, ilv = results.distinct, results.ilv
+    cfg_hist = results.cfg_hist
+    clean_runs, faulted_runs = results.clean_runs, results.faulted_runs
+    per_h = dict(results.n)
+    extra_sum = results.extra_sum
+    samples = []
+    for h in results.samples:
+        samples.extend(results.samples[h])
     if not samples:
         samples.append({"note": "no run completed"})
     notes = {}
@@ -587,6 +618,7 @@ def write_evidence(pid, tier, seed, results, reported, known_printed, det, wall,
             "scheduling_steps_total": steps,
             "distinct_interleavings": len(ilv),
             "distinct_interleavings_measure": "distinct hashes of the sequence of tasks chosen at scheduling decisions with >1 enabled task",
+            "distinct_counts_capped": bool(results.capped),
             "fault_fired_in_faulted_runs": dict(faults), "fault_fired_in_clean_runs": dict(faults_clean),
             "clean_runs": clean_runs, "faulted_runs": faulted_runs,
             "probes": dict(probes),
